@@ -39,7 +39,7 @@ func init() {
 		mutant{Name: "defer-args-alias-slot", Prop: "C06", File: "interp/run.go", Old: "val[i+1] = fixArg(getBinValue(getMapType, v, f))", New: "val[i+1] = getBinValue(getMapType, v, f)", Rule: "R06.3", Key: "callBin/defer-record"},
 		mutant{Name: "recover-reads-own-frame", Prop: "C06", File: "interp/run.go", Old: "\t\tif f.anc.recovered == nil {", New: "\t\tif f.recovered == nil {", Rule: "R06.4", Key: "_recover/caller-frame"},
 		mutant{Name: "recover-does-not-clear", Prop: "C06", File: "interp/run.go", Old: "\t\tf.anc.recovered = nil\n", New: "", Rule: "R06.4", Key: "_recover/clears"},
-		mutant{Name: "deferred-run-before-recover", Prop: "C06", File: "interp/run.go", Old: "\t\tf.recovered = recover()\n\t\tfor _, val := range f.deferred {\n\t\t\tval[0].Call(val[1:])\n\t\t}\n", New: "\t\tfor _, val := range f.deferred {\n\t\t\tval[0].Call(val[1:])\n\t\t}\n\t\tf.recovered = recover()\n", Rule: "R06.4", Key: "recover-before-deferred"},
+		mutant{Name: "deferred-run-before-recover", Prop: "C06", File: "interp/run.go", Old: "\t\tf.recovered = recover()\n\t\tdeferred := f.deferred\n", New: "\t\tdeferred := f.deferred\n", More: [][2]string{{"\t\tf.mutex.Lock()\n\t\tif f.recovered != nil {", "\t\tf.mutex.Lock()\n\t\tf.recovered = recover()\n\t\tif f.recovered != nil {"}}, Rule: "R06.4", Key: "recover-before-deferred"},
 		mutant{Name: "panic-value-dropped", Prop: "C06", File: "interp/program.go", Old: "err = Panic{Value: r, Callers: pc[:n], Stack: debug.Stack()}", New: "err = Panic{Callers: pc[:n], Stack: debug.Stack()}", Rule: "R06.5", Key: "Execute/converts"},
 		mutant{Name: "benign-extract-helper", Prop: "C06", File: "interp/program.go", Old: "err = Panic{Value: r, Callers: pc[:n], Stack: debug.Stack()}", New: "p := Panic{Value: r, Callers: pc[:n], Stack: debug.Stack()}\n\t\t\terr = p", Benign: true},
 	)
@@ -190,5 +190,13 @@ func init() {
 		mutant{Name: "step-over-skips-breakpoints", Prop: "C19", File: "interp/debugger.go", Old: "\tcase n.shouldBreak():\n\t\te.reason = DebugBreak\n\n\tcase g.mode == debugRun:\n\t\treturn false\n", New: "\tcase g.mode == debugRun:\n\t\tif !n.shouldBreak() {\n\t\t\treturn false\n\t\t}\n\t\te.reason = DebugBreak\n", Rule: "R19.3", Key: "Debugger.exec/breakpoint-before-shortcuts"},
 		mutant{Name: "terminate-event-not-deferred", Prop: "C19", File: "interp/debugger.go", Old: "\t\tdefer events(&DebugEvent{reason: DebugTerminate})\n", New: "", Rule: "R19.4", Key: "Debug/terminate-event"},
 		mutant{Name: "debug-loop-runs-two-ops", Prop: "C19", File: "interp/run.go", Old: "\t\texec = exec(f)\n\t\tif exec == nil {\n\t\t\tbreak\n\t\t}\n", New: "\t\texec = exec(f)\n\t\tif exec == nil {\n\t\t\tbreak\n\t\t}\n\t\tif m == nil {\n\t\t\texec = exec(f)\n\t\t}\n", Rule: "R19.2", Key: "runCfg/loop#2/step"},
+	)
+}
+
+func init() {
+	addMutants(
+		mutant{Name: "deferred-calls-under-frame-lock", Prop: "C08", File: "interp/run.go", Old: "\t\tdeferred := f.deferred\n\t\tf.mutex.Unlock()\n", New: "\t\tdeferred := f.deferred\n", More: [][2]string{{"\t\tfor _, val := range deferred {\n\t\t\tf.callDeferred(val)\n\t\t}\n\n\t\tf.mutex.Lock()\n", "\t\tfor _, val := range deferred {\n\t\t\tval[0].Call(val[1:])\n\t\t}\n\n"}}, Rule: "R08.3", Key: "reentrant"},
+		mutant{Name: "deferred-calls-not-isolated", Prop: "C06", File: "interp/run.go", Old: "\t\t\tf.callDeferred(val)\n", New: "\t\t\tval[0].Call(val[1:])\n", Rule: "R06.7", Key: "runCfg/deferred-calls-isolated"},
+		mutant{Name: "benign-range-over-field", Prop: "C06", File: "interp/run.go", Old: "\t\tfor _, val := range deferred {\n\t\t\tf.callDeferred(val)", New: "\t\tfor _, val := range f.deferred {\n\t\t\tf.callDeferred(val)", More: [][2]string{{"\t\tdeferred := f.deferred\n", ""}}, Benign: true},
 	)
 }
